@@ -313,6 +313,18 @@ def prop_v2(ctx, case):
                                                                   f'{got[k:k + 1]} instead of {exp[k:k + 1]}')
     # ---- callstacks
     cbody, csegs = check_composition('callstacks', blob, cfgs)
+    cobjs = guard(lambda: list(PyKdebugParser().callstacks(BudgetReader(blob))))
+    if len(cobjs) != len(cbody):
+        raise Violation('line-count:callstacks', 'callstacks() and formatted_callstacks() disagree')
+    for k, cs in enumerate(cobjs):
+        # the sample's header line is stamped with the START record of its window: that record's thread is the emitting thread
+        start = index_of_ts.get(int(csegs[0][k].strip())) if csegs[0][k].strip().isdigit() else None
+        if start is None:
+            raise Violation('column-content:callstacks', f'callstack {k}: timestamp column {csegs[0][k]!r} is not the timestamp of a record of the dump')
+        etid = evs[start][0]
+        if csegs[3][k].strip() not in (str(etid), hex(etid)):
+            raise Violation('column-content:callstacks:show_tid', f'callstack {k} (window opened by record {start} of thread {etid:#x}): thread column {csegs[3][k]!r}')
+        check_process(csegs[4][k].strip(), etid, [snaps[start], snaps[start + 1], snaps[-1]] + snaps[start:], declared_names, declared_pids, 'callstacks')
     for k in range(len(cbody)):
         for i in (1, 2, 5):
             if csegs[i][k] != '':
